@@ -70,6 +70,13 @@ func vocabByText(text string) vocab {
 	if strings.HasPrefix(text, "r:") { // a word written as it is
 		return vocab{"Variable", tokenizers.Word, text[2:]}
 	}
+	if strings.HasPrefix(text, "s:") { // an operator word delivered as a Symbol token, in any letter case
+		for _, v := range exprVocab {
+			if v.typ == tokenizers.Keyword && strings.EqualFold(v.text, text[2:]) {
+				return vocab{v.kind, tokenizers.Symbol, text[2:]}
+			}
+		}
+	}
 	if strings.HasPrefix(text, "w:") {
 		for _, v := range exprVocab {
 			if v.typ == tokenizers.Word && v.text == text[2:] {
@@ -224,7 +231,11 @@ func execC02(seg []Ev) []Ev {
 		var err error
 		parsedText := ""
 		oc, det := guarded(func() {
-			if entry == "origtokens" {
+			if entry == "zerotokens" {
+				var zp parsers.ExpressionParser // a parser value that no constructor made
+				err = zp.ParseTokens(lex)
+				p = &zp
+			} else if entry == "origtokens" {
 				err = p.SetOriginalTokens(lex)
 			} else if entry == "tokens" {
 				given := lex
@@ -257,10 +268,10 @@ func execC02(seg []Ev) []Ev {
 				err = p.ParseString(parsedText)
 			}
 		})
-		if entry != "tokens" && entry != "origtokens" {
+		if entry != "tokens" && entry != "origtokens" && entry != "zerotokens" {
 			e["text"] = parsedText
 		}
-		if entry != "tokens" && entry != "origtokens" && oc == "ok" {
+		if entry != "tokens" && entry != "origtokens" && entry != "zerotokens" && oc == "ok" {
 			// the lexical tokens of that text, from a separate tokenizer of the parser's kind
 			toks = toks[:0]
 			for _, t := range lexTokens(parsedText) {
@@ -287,6 +298,17 @@ func execC02(seg []Ev) []Ev {
 		kp.check(e)
 		out = append(out, e)
 	}
+	// a caller may do what it likes with the constants of a program it was given: nothing another parser compiles depends on it
+	guarded(func() {
+		tp := parsers.NewExpressionParser()
+		if tp.ParseString("TRUE AND FALSE OR 1 = 'x' OR 2.5 > NULL") == nil {
+			for _, t := range tp.ResultTokens() {
+				if t.Type() == parsers.Constant && t.Value() != nil {
+					t.Value().SetAsString("scribbled by the caller")
+				}
+			}
+		}
+	})
 	if len(out) > 0 {
 		q := p
 		hold("compiled program, names and tokens of the previous parser", func() string { return progText(q) })
@@ -355,6 +377,14 @@ func genC02(g *Gen) {
 		}
 	}
 	rec2(nil)
+	// operator words delivered as Symbol tokens in any letter case (token entries only)
+	for _, w := range []string{"and", "Or", "xOR", "not", "like", "IS", "in", "Null"} {
+		for _, ctx := range [][]string{{"a", "s:" + w, "a"}, {"s:" + w, "a"}, {"a", "s:" + w, "s:null"}, {"a", "NOT", "s:" + w, "a"}, {"a", "s:not", "s:" + w, "a"}, {"1", "+", "a", "s:" + w, "1"}} {
+			for _, entry := range []string{"tokens", "origtokens", "zerotokens"} {
+				run("operator words as Symbol tokens", entry, ctx)
+			}
+		}
+	}
 	// words that look like keywords: a letter replaced by one whose case mapping meets the keyword's letter
 	for _, kwd := range c13keywords {
 		low := strings.ToLower(kwd)
@@ -481,6 +511,9 @@ func genC02(g *Gen) {
 		}
 		if i%9 == 4 {
 			entry = "origtokens"
+		}
+		if i%9 == 7 {
+			entry = "zerotokens"
 		}
 		run("mutated valid expressions", entry, ts)
 	}
